@@ -102,8 +102,8 @@ def pieces(v, term, depth=0):
             if ty_ok:
                 return pieces(v, inner, depth + 1)
             return [("val", inner)]
-        if nm == "std::fmt::format" and len(args) == 1:
-            a = strip_refs(args[0])
+        if (nm == "std::fmt::format" and len(args) == 1) or (nm == "std::fmt::Write::write_fmt" and len(args) == 2):
+            a = strip_refs(args[-1])
             if a[0] == "call" and (call_name(v, a) or "").startswith("std::fmt::Arguments") and a[3]:
                 if len(a[3]) == 1:
                     # Arguments::from_str / new_const: one literal
